@@ -6,7 +6,13 @@ from typing import Any, Dict
 from ..core import Outcome, Prop
 from . import slices
 from .c05 import HISTORY, make_compare
+from ..core import Slice
 from .c11 import SERIES_DROP
+
+# DataFrameSchema level on pandas and polars (FrameRows.tla): the drop and the head/tail runs, eager and lazy
+FRAME_ROWS_ALL = Slice(name="FrameRows.all", module="FrameRows",
+                       cfg={"quick": "mc/MC_FrameRows_quick.cfg", "thorough": "mc/MC_FrameRows_thorough.cfg"},
+                       observe=("vf.obs_rows", "observe_rows"), cap={"quick": 6000, "thorough": 60000})
 
 _history = make_compare(("outcome", "calls", "hidden"), ("input_unchanged", "cfg_unchanged"), only_fault=True)
 
@@ -14,6 +20,21 @@ _history = make_compare(("outcome", "calls", "hidden"), ("input_unchanged", "cfg
 def compare(vec: Dict[str, Any], obs: Dict[str, Any]) -> Outcome:
     if vec["kind"] == "history":
         return _history(vec, obs)
+    if vec["kind"] == "rows":
+        oc = Outcome()
+        for tag in ("kind", "lazy_kind"):
+            k = obs.get(tag, "")
+            if k.startswith("Leak:"):
+                joint_lazy = (vec["backend"] == "polars" and tag == "lazy_kind" and k == "Leak:NotImplementedError"
+                              and vec["schema"]["joint"] != "no")
+                if joint_lazy:
+                    oc.known = ["PolarsLazyJointUniqueNotImplemented"]
+                else:
+                    oc.mismatches.append("%s %s (%s): an internal exception escaped validate: %s %s"
+                                         % (vec["backend"], vec["mode"], "lazy" if tag == "lazy_kind" or vec["mode"] == "drop" else "eager",
+                                            k, obs.get("msg", "")[:100]))
+        oc.sig = "rows|%s|%s|%s|%s" % (vec["backend"], vec["mode"], obs.get("kind"), obs.get("lazy_kind"))
+        return oc
     # every other explored (schema, data): no internal exception may escape validate
     oc = Outcome()
     runs = [("", obs)] if "kind" in obs else [(m + ": ", obs[m]) for m in ("eager", "lazy", "lazy2") if m in obs]
@@ -35,7 +56,7 @@ def compare(vec: Dict[str, Any], obs: Dict[str, Any]) -> Outcome:
 PROP = Prop(
     id="C06",
     title="Errors use the documented channel; failures leave no trace (exception safety)",
-    slices=[HISTORY, slices.SERIES_PARSE, slices.FRAME_PARSE, SERIES_DROP, slices.CONTAINER, slices.INDEX],
+    slices=[HISTORY, slices.SERIES_PARSE, slices.FRAME_PARSE, SERIES_DROP, slices.CONTAINER, slices.INDEX, FRAME_ROWS_ALL],
     compare=compare,
     rule=("History.tla gives every container / stand-alone column validation a fault parameter: the k-th invocation of a "
           "user callback (parser fn, vectorised and element-wise check fns, index and frame-level check fns) raises a "
